@@ -100,7 +100,7 @@ def fail(bucket, what, expected, observed):
 
 def plan(tier, seed):
     if tier == "quick":
-        return [{"n": 300} for _ in range(16)]
+        return [{"n": 800} for _ in range(16)]
     return [{"n": 8000} for _ in range(16)]
 
 
